@@ -108,8 +108,9 @@ type frame struct {
 	curInstr         ssa.Instruction
 }
 
-// chanStub stands for a channel value: it can be created, stored and compared, not used.
-type chanStub struct{}
+// chanStub stands for a channel value: it can be created, stored, compared and closed; nothing can be sent, and a
+// receive succeeds only once it is closed (the "done flag" idiom, e.g. go/ssa's build tasks).
+type chanStub struct{ closed bool }
 
 func mustDeref(t types.Type) types.Type {
 	if p, ok := t.Underlying().(*types.Pointer); ok {
@@ -552,12 +553,20 @@ func visitInstr(fr *frame, instr ssa.Instruction) continuation {
 		if instr.Blocking {
 			panic(engineError{"blocking select is not supported at " + i.where()})
 		}
-		for _, st := range instr.States {
-			if _, ok := fr.get(st.Chan).(*chanStub); !ok {
+		chosen := -1
+		for k, st := range instr.States {
+			c, ok := fr.get(st.Chan).(*chanStub)
+			if !ok {
 				panic(engineError{"select on an unsupported channel value at " + i.where()})
 			}
+			if chosen < 0 && c != nil && c.closed {
+				if st.Dir != types.RecvOnly {
+					panic(targetRuntimeError("send on closed channel"))
+				}
+				chosen = k // a receive from a closed channel is ready
+			}
 		}
-		r := tuple{-1, false}
+		r := tuple{chosen, false}
 		for _, st := range instr.States {
 			if st.Dir == types.RecvOnly {
 				r = append(r, zero(st.Chan.Type().Underlying().(*types.Chan).Elem()))
